@@ -237,7 +237,7 @@ func storeStream(t *testing.T) {
 	r := vh.New(t, "C13", "store")
 	r.Coq("From Verif Require Import Calcium.DeployStatus.", "DeployStatus.case", "DeployStatus.agree", "DeployStatus.ok")
 	r.Shard = 40
-	total := r.N(60, 1500)
+	total := r.N(60, 700)
 	rng := r.Rng
 	uniq := 0
 	done := 0
@@ -428,7 +428,7 @@ func deployStream(t *testing.T) {
 	r := vh.New(t, "C13", "deploy")
 	r.Coq("From Verif Require Import Calcium.DeployStatus.", "DeployStatus.case", "DeployStatus.agree", "DeployStatus.ok")
 	r.Shard = 40
-	total := r.N(40, 800)
+	total := r.N(40, 350)
 	rng := r.Rng
 	done := 0
 	opNo := 0
